@@ -59,7 +59,7 @@ type prScenario struct {
 }
 
 var (
-	prErrE = errors.New("E")
+	prErrE = fmt.Errorf("E: %w", context.Canceled) // an ordinary error value that happens to wrap the sentinel
 	prErrX = errors.New("X")
 )
 
